@@ -20,8 +20,9 @@ Abs(x) == IF x < 0 THEN -x ELSE x
 Min2(a, b) == IF a <= b THEN a ELSE b
 Max2(a, b) == IF a >= b THEN a ELSE b
 
-RECURSIVE Gcd(_, _)
-Gcd(a, b) == IF b = 0 THEN Abs(a) ELSE Gcd(b, a % b)
+RECURSIVE GcdN(_, _)
+GcdN(a, b) == IF b = 0 THEN a ELSE GcdN(b, a % b)
+Gcd(a, b) == GcdN(Abs(a), Abs(b))
 
 RECURSIVE Pow2(_)
 Pow2(n) == IF n <= 0 THEN 1 ELSE 2 * Pow2(n - 1)
